@@ -118,6 +118,8 @@ impl RegistryPackageResolver {
         {
             let client = self.client.clone();
             tasks.push(tokio::spawn(async move {
+                #[cfg(wac_verif)]
+                crate::verif_hooks::gate(index).await;
                 Ok((
                     index,
                     if let Some(version) = version {
